@@ -40,11 +40,17 @@ def is_num(t):
 
 
 _KEYS = {}
+_OKEYS = {}
+
+
+def _digest(txt):
+    import hashlib
+    return hashlib.md5(txt.encode()).hexdigest()[:20]
 
 
 def key(t):
-    """deterministic ordering key of a term: short, memoised on object identity
-    (a digest of the children's keys, so deep terms are not re-rendered)."""
+    """injective identity key of a term (used to collect like terms / equal bases):
+    short, memoised on object identity (digest of the children's keys)."""
     if not isinstance(t, tuple):
         return repr(t)
     k = _KEYS.get(id(t))
@@ -58,27 +64,53 @@ def key(t):
             r = "n%s/%s" % (t[1].numerator, t[1].denominator)
         elif h == "sym":
             r = "s" + t[1]
-        elif h in ("lv", "lt") and len(t) == 3:
-            r = h                       # loop identifiers / variable names do not influence ordering
-        elif h == "loop" and len(t) == 5:
-            import hashlib
-            parts = "|".join([key(t[2])] + [key(v) for _, v in t[3]] + [key(v) for _, v in t[4]])
-            r = "loop:" + hashlib.md5(parts.encode()).hexdigest()[:20]
-        elif h == "loopout" and len(t) == 3:
-            r = "lo:" + key(t[2])
-        elif h == "listcomp" and len(t) == 4:
-            import hashlib
-            r = "lc:" + hashlib.md5((key(t[2]) + "|" + key(t[3])).encode()).hexdigest()[:20]
         elif isinstance(h, str) and len(t) <= 2 and all(not isinstance(x, tuple) for x in t[1:]):
             r = repr(t)
         else:
-            import hashlib
-            parts = "|".join(key(x) for x in t)
-            r = (h if isinstance(h, str) else "T") + ":" + hashlib.md5(parts.encode()).hexdigest()[:20]
+            r = (h if isinstance(h, str) else "T") + ":" + _digest("|".join(key(x) for x in t))
     if len(_KEYS) > 2000000:
         _KEYS.clear()
     _KEYS[id(t)] = (t, r)
     return r
+
+
+def okey(t):
+    """ordering key: like key() but insensitive to loop identifiers and loop-variable
+    names, so that copies of one loop nest order their operands alike; ties are broken
+    by the injective key."""
+    if not isinstance(t, tuple):
+        return repr(t)
+    k = _OKEYS.get(id(t))
+    if k is not None and k[0] is t:
+        return k[1]
+    if not t:
+        r = "()"
+    else:
+        h = t[0]
+        if h == "num":
+            r = "n%s/%s" % (t[1].numerator, t[1].denominator)
+        elif h == "sym":
+            r = "s" + t[1]
+        elif h in ("lv", "lt") and len(t) == 3:
+            r = h
+        elif h == "loop" and len(t) == 5:
+            r = "loop:" + _digest("|".join([okey(t[2])] + [okey(v) for _, v in t[3]] + [okey(v) for _, v in t[4]]))
+        elif h == "loopout" and len(t) == 3:
+            r = "lo:" + okey(t[2])
+        elif h == "listcomp" and len(t) == 4:
+            r = "lc:" + _digest(okey(t[2]) + "|" + okey(t[3]))
+        elif isinstance(h, str) and len(t) <= 2 and all(not isinstance(x, tuple) for x in t[1:]):
+            r = repr(t)
+        else:
+            r = (h if isinstance(h, str) else "T") + ":" + _digest("|".join(okey(x) for x in t))
+    if len(_OKEYS) > 2000000:
+        _OKEYS.clear()
+    _OKEYS[id(t)] = (t, r)
+    return r
+
+
+def sortkey(t):
+    return (okey(t), key(t))
 
 
 def add(*ts):
@@ -108,7 +140,7 @@ def add(*ts):
         if c == 0:
             continue
         out.append(rest if c == 1 else _mul_raw(c, rest))
-    out.sort(key=key)
+    out.sort(key=sortkey)
     if const != 0 or not out:
         out.append(("num", const))
     if len(out) == 1:
@@ -161,7 +193,7 @@ def mul(*ts):
         if e == 0:
             continue
         out.append(b if e == 1 else ("pow", b, ("num", e)))
-    out.sort(key=key)
+    out.sort(key=sortkey)
     if not out:
         return ("num", const)
     if const != 1:
